@@ -46,8 +46,14 @@ fn value_of(g: &mut Gen, ty: &str) -> Ex {
             let k = g.key_lit();
             Ex::Dict(None, vec![(k, Some(int(1)))])
         }
-        "vector" => call("V", vec![int(1), int(g.rng.range(0, 5))]),
-        "bytes" => call("B", vec![int(g.rng.range(0, 255))]),
+        "vector" => {
+            let n = 1 + g.rng.below(4);
+            call("V", (0..n).map(|k| int(k as i64 + g.rng.range(0, 3))).collect())
+        }
+        "bytes" => {
+            let n = 1 + g.rng.below(4);
+            call("B", (0..n).map(|_| int(g.rng.range(0, 255))).collect())
+        }
         "func" => Ex::Lambda(vec![lv("z")], Box::new(var("z"))),
         "nulltype" => Ex::Null,
         "Pt" => call("Pt", vec![int(g.rng.range(0, 5)), int(2)]),
@@ -101,6 +107,16 @@ pub fn generate(seed: u64, fault_free: bool) -> TypedOut {
     if g.push(
         "struct",
         Ex::StructDef("Pt".into(), vec![("px".into(), None), ("py".into(), Some(int(7)))]),
+        vec![],
+    )
+    .is_err()
+    {
+        return finish(g, nontrivial);
+    }
+    // a second struct with the same number of fields: its instances must not match `Pt(a, b)`
+    if g.push(
+        "struct",
+        Ex::StructDef("Qt".into(), vec![("qx".into(), None), ("qy".into(), Some(int(8)))]),
         vec![],
     )
     .is_err()
@@ -445,11 +461,36 @@ pub fn generate(seed: u64, fault_free: bool) -> TypedOut {
             }
             8 => {
                 // switch: the first matching arm runs
-                let scrut = if g.rng.chance(1, 2) { var(&name) } else { value_of(&mut g, "anything") };
+                let scrut = match g.rng.below(8) {
+                    0..=2 => var(&name),
+                    3 => call("Qt", vec![int(g.rng.range(0, 5)), int(2)]),
+                    4 => {
+                        let t = *g.rng.pick(&["vector", "bytes", "str", "rational", "Pt"]);
+                        value_of(&mut g, t)
+                    }
+                    5 => {
+                        let n = g.rng.below(5);
+                        Ex::List((0..n).map(|_| int(g.rng.range(0, 9))).collect())
+                    }
+                    _ => value_of(&mut g, "anything"),
+                };
                 let mut arms: Vec<(Lv, Ex)> = Vec::new();
                 let n = 2 + g.rng.below(4);
                 for k in 0..n {
-                    let pat = match g.rng.below(12) {
+                    let pat = match g.rng.below(17) {
+                        // a / b: numerator and denominator
+                        12 => Lv::Destructure(Box::new(var("/")), vec![lv("pa"), lv("pb")]),
+                        13 => Lv::Destructure(Box::new(var("/")), vec![lv("pa"), Lv::Lit(Box::new(int(1)))]),
+                        // prepend / append patterns, also chained without parentheses
+                        14 => Lv::Destructure(Box::new(var(".+")), vec![lv("pa"), lv("pb")]),
+                        15 => Lv::Destructure(
+                            Box::new(var(".+")),
+                            vec![lv("pa"), Lv::Destructure(Box::new(var(".+")), vec![lv("pb"), lv("pr")])],
+                        ),
+                        16 => Lv::Destructure(
+                            Box::new(var("+.")),
+                            vec![Lv::Destructure(Box::new(var("+.")), vec![lv("pr"), lv("pb")]), lv("pa")],
+                        ),
                         // chained comparison patterns, same and mixed operators, at the boundaries
                         9 => {
                             let lo = g.rng.range(0, 3);
@@ -484,13 +525,37 @@ pub fn generate(seed: u64, fault_free: bool) -> TypedOut {
                         7 => Lv::Destructure(Box::new(var("append")), vec![lv("pa"), lv("pb")]),
                         _ => Lv::Destructure(Box::new(var("+")), vec![lv("pa"), Lv::Lit(Box::new(int(1)))]),
                     };
-                    arms.push((pat, Ex::List(vec![int(k as i64)])));
+                    // the arm's value shows which arm ran and, for patterns binding pa (pb, pr),
+                    // what they were bound to
+                    let binds = |l: &Lv, n: &str| crate::freevars::lv_names(l).contains(&n.to_string());
+                    let mut shown = vec![int(k as i64)];
+                    for n in ["pa", "pb", "pr"] {
+                        if binds(&pat, n) {
+                            shown.push(var(n));
+                        }
+                    }
+                    arms.push((pat, Ex::List(shown)));
                 }
                 if !ill {
                     arms.push((Lv::Underscore, int(99)));
                 }
                 nontrivial = true;
                 g.push("switch", Ex::Switch(Box::new(scrut), arms), vec![])
+            }
+            9 if g.rng.chance(1, 3) => {
+                // several trailing defaults: each missing argument takes its own default
+                let lam = Ex::Lambda(
+                    vec![
+                        lv("pa"),
+                        Lv::Default(Box::new(lv("pb")), Box::new(int(11))),
+                        Lv::Default(Box::new(lv("pc")), Box::new(int(12))),
+                        Lv::Default(Box::new(lv("pd")), Box::new(int(13))),
+                    ],
+                    Box::new(Ex::List(vec![var("pa"), var("pb"), var("pc"), var("pd")])),
+                );
+                let n_args = if ill { *g.rng.pick(&[0usize, 5]) } else { 1 + g.rng.below(4) };
+                let args: Vec<Ex> = (0..n_args).map(|k| int(k as i64 + 1)).collect();
+                g.push("several-defaults", Ex::Call(Box::new(lam), args), vec![])
             }
             9 => {
                 // patterns in lambda parameters and for clauses
